@@ -1,5 +1,6 @@
 import TextxVerif.Proofs.ResolveList
 import TextxVerif.Proofs.Resolve
+import TextxVerif.Proofs.RefList
 /-!
 # C08 — reference lists keep the textual order of the references
 
@@ -9,6 +10,12 @@ inserted at the `bisect` index of its reference's text position.  The
 *schedule* — which references a provider postpones on which rounds — only
 decides the sequence `seq` in which the references of the list get resolved;
 the theorems quantify over every such sequence.
+
+`RefList` (second part of this file) is the same code at the level of the data it
+really keeps — the dictionary `_list_ref_positions` keyed by `(id(obj), attribute)`,
+the attribute values as separate Python lists, `bisect` / `list.insert` with its
+clamped index — for a whole *history* of model loads with one metamodel, in which
+keys (object ids) recur from load to load and text positions start at 0.
 -/
 namespace Resolve
 
@@ -49,3 +56,72 @@ example : listAfter [⟨1, 20, 101⟩, ⟨2, 30, 102⟩, ⟨0, 10, 100⟩] =
     [⟨0, 10, 100⟩, ⟨1, 20, 101⟩, ⟨2, 30, 102⟩] := by decide
 
 end Resolve
+
+/-! ## all list attributes of a load; histories of loads -/
+namespace RefList
+
+/-- **Order, per attribute.** `refs` = all references written in list attributes
+of one model (textual order; two references of one attribute have increasing
+positions — positions of different attributes are unrelated and 0 is a position
+like any other).  Whatever order `seq` the resolver resolves them in, every list
+attribute ends up holding the targets of its own references in textual order. -/
+theorem C08_keyed_order (refs seq : List KRef)
+    (hpos : refs.Pairwise (fun a b => a.key = b.key → a.pos < b.pos))
+    (hperm : seq.Perm refs) (k : Key) :
+    (run seq).values k = (ofKey k refs).map (·.tgt) := by
+  rw [(run_eq seq k).2,
+    Resolve.C08_order (seqOf k refs) (seqOf k seq) (seqOf_pairwise hpos k) (seqOf_perm hperm k)]
+  simp [seqOf, toL, List.map_map]
+
+/-- the recorded positions stay the sorted positions of the resolved references -/
+theorem C08_keyed_positions (refs seq : List KRef)
+    (hpos : refs.Pairwise (fun a b => a.key = b.key → a.pos < b.pos))
+    (hperm : seq.Perm refs) (k : Key) :
+    (run seq).positions k = (ofKey k refs).map (·.pos) := by
+  rw [(run_eq seq k).1,
+    Resolve.C08_order (seqOf k refs) (seqOf k seq) (seqOf_pairwise hpos k) (seqOf_perm hperm k)]
+  simp [seqOf, toL, List.map_map]
+
+/-- **Histories.** Any number of loads with one metamodel, each with its own
+references `l.1` (textual order) and its own resolution sequence `l.2`; nothing
+is assumed about the keys of different loads (an object of a later load may get
+the `id()` of a collected object of an earlier one) nor about what the earlier
+loads contained.  In every load every list attribute holds the targets of its
+references in textual order. -/
+theorem C08_history_order (loads : List (List KRef × List KRef))
+    (h : ∀ l ∈ loads, l.1.Pairwise (fun a b => a.key = b.key → a.pos < b.pos) ∧ l.2.Perm l.1)
+    (k : Key) :
+    (history (loads.map (·.2))).map (fun st => st.values k) =
+      loads.map (fun l => (ofKey k l.1).map (·.tgt)) := by
+  simp only [history, List.map_map]
+  apply List.map_congr_left
+  intro l hl
+  exact C08_keyed_order l.1 l.2 (h l hl).1 (h l hl).2 k
+
+/-- A position dictionary that outlives the resolver (kept with the parser
+blueprint / metamodel) violates the property as soon as a key recurs: second
+load of `a b c` with `a` postponed once gives `[b, a, c]`. -/
+theorem C08_shared_book_false :
+    ∃ (refs : List KRef) (seq : List KRef),
+      refs.Pairwise (fun a b => a.key = b.key → a.pos < b.pos) ∧ seq.Perm refs ∧
+      ((historyShared (fun _ => []) [refs, seq]).map (fun st => st.values (7, 0))) ≠
+        [(ofKey (7, 0) refs).map (·.tgt), (ofKey (7, 0) refs).map (·.tgt)] :=
+  ⟨[⟨(7, 0), 10, 100⟩, ⟨(7, 0), 12, 101⟩, ⟨(7, 0), 14, 102⟩],
+   [⟨(7, 0), 12, 101⟩, ⟨(7, 0), 14, 102⟩, ⟨(7, 0), 10, 100⟩], by decide, by decide, by decide⟩
+
+/-- Treating offset 0 as "no position" violates the property for a model text
+that begins with a reference list whose first reference is postponed. -/
+theorem C08_falsy_position_false :
+    ∃ (refs : List KRef) (seq : List KRef),
+      refs.Pairwise (fun a b => a.key = b.key → a.pos < b.pos) ∧ seq.Perm refs ∧
+      (seq.foldl resolveFalsy State.init).values (1, 0) ≠ (ofKey (1, 0) refs).map (·.tgt) :=
+  ⟨[⟨(1, 0), 0, 100⟩, ⟨(1, 0), 3, 101⟩, ⟨(1, 0), 6, 102⟩],
+   [⟨(1, 0), 3, 101⟩, ⟨(1, 0), 6, 102⟩, ⟨(1, 0), 0, 100⟩], by decide, by decide, by decide⟩
+
+/-! non-vacuity: position 0, two attributes of one object, a key recurring in the next load -/
+example : (run [⟨(1, 0), 3, 101⟩, ⟨(1, 1), 9, 200⟩, ⟨(1, 0), 0, 100⟩]).values (1, 0) = [100, 101] := by decide
+example : (run [⟨(1, 0), 3, 101⟩, ⟨(1, 1), 9, 200⟩, ⟨(1, 0), 0, 100⟩]).values (1, 1) = [200] := by decide
+example : (history [[⟨(1, 0), 0, 100⟩, ⟨(1, 0), 3, 101⟩], [⟨(1, 0), 3, 101⟩, ⟨(1, 0), 0, 100⟩]]).map
+    (fun st => st.values (1, 0)) = [[100, 101], [100, 101]] := by decide
+
+end RefList
